@@ -570,12 +570,50 @@ def check_c16(m, random_seed, result, old_fp):
     if m.number_of_edges() > 1 and nx.density(m) != 1:
         if {frozenset(e) for e in m.edges()} == {frozenset(e) for e in result.edges()}:
             return {"what": "edge set unchanged although >= 2 bonds and not complete", "seed": random_seed, "input": _graph_json(m)}
+    # fault injection at the helper's source of randomness: the first K shuffles come out as the identity (the rarest schedule a real
+    # RNG can produce); a faithful helper keeps drawing until the edge set changes
+    if m.number_of_edges() > 1 and nx.density(m) != 1 and n <= 60 and S.rng.random() < 0.15:
+        w = _hostile_rng_check(m, random_seed)
+        if w:
+            return w
     try:
         again = S.orig["permute_molecule"](m, random_seed)
     except Exception as e:
         return {"what": "second permute_molecule call with the same seed raised", "exception": f"{type(e).__name__}: {e}"[:200]}
     if fingerprint(again) != fingerprint(result):
         return {"what": "same seed, different result", "seed": random_seed}
+    return None
+
+
+def _hostile_rng_check(m, random_seed):
+    import random as _random
+    k = S.rng.choice([1, 3, 17, 40, 150])
+    state = {"calls": 0}
+    orig_mod_shuffle, orig_cls_shuffle = _random.shuffle, _random.Random.shuffle
+
+    def cls_shuffle(self, x, *a, **kw):
+        state["calls"] += 1
+        if state["calls"] <= k:
+            return None  # identity "shuffle"
+        return orig_cls_shuffle(self, x, *a, **kw)
+
+    def mod_shuffle(x, *a, **kw):
+        state["calls"] += 1
+        if state["calls"] <= k:
+            return None
+        return orig_mod_shuffle(x, *a, **kw)
+    _random.shuffle, _random.Random.shuffle = mod_shuffle, cls_shuffle
+    try:
+        r = S.orig["permute_molecule"](m, random_seed)
+    except Exception as e:
+        return {"what": "permute_molecule raised when its first shuffles were identities", "exception": f"{type(e).__name__}: {e}"[:200], "k": k}
+    finally:
+        _random.shuffle, _random.Random.shuffle = orig_mod_shuffle, orig_cls_shuffle
+    if state["calls"]:
+        _mon("c16_hostile_rng_injection")
+        if {frozenset(e) for e in m.edges()} == {frozenset(e) for e in r.edges()}:
+            return {"what": "edge set unchanged after the first K shuffles came out as identities (the helper gave up retrying)", "K": k, "shuffles_drawn": state["calls"],
+                    "seed": random_seed, "input": _graph_json(m)}
     return None
 
 
